@@ -103,6 +103,21 @@ Theorem C15_tree_compose : forall s x, loops_gen s x -> load_cfg_gen s (Some (to
 Proof. exact tree_compose_gen. Qed.
 Print Assumptions C15_tree_compose.
 
+(* a member `m: Optional[Class] = None`: None comes back as None; an instance is built from its section like a plain member *)
+Theorem C15_optional_member_none : forall s,
+  member_loads s = true -> load_cfg_gen (SOpt s) (Some (to_dict_gen (ILeaf VNone))) = Ok (ILeaf VNone).
+Proof. exact optional_member_none_gen. Qed.
+Print Assumptions C15_optional_member_none.
+(* refuted without the side condition: a member that is None whose class has a Tuple field without a default *)
+Theorem C15_witness_absent_member_tuple :
+  load_cfg_gen (SOpt (SNode [("t", SLeaf (TTupFix [TInt; TInt]) None)])) (Some (to_dict_gen (ILeaf VNone))) = Err (Raise "TypeError").
+Proof. exact witness_absent_member_tuple. Qed.
+Print Assumptions C15_witness_absent_member_tuple.
+Theorem C15_optional_member_some : forall s xs,
+  load_cfg_gen (SOpt s) (Some (to_dict_gen (INode xs))) = load_cfg_gen s (Some (to_dict_gen (INode xs))).
+Proof. exact optional_member_some_gen. Qed.
+Print Assumptions C15_optional_member_some.
+
 (* whole instance, each of the four file formats *)
 Theorem C15_tree_loop : forall sfx s x,
   str_in sfx four_suffixes = true -> in_quantifier s x = true -> side_conditions s x = true ->
@@ -128,9 +143,11 @@ Print Assumptions C15_rooted_same.
 Example C15_nonvacuous :
   let s := SNode [("c", SLeaf (TEnum ["RED"; "GREEN"]) None); ("p", SLeaf (TOpt TPath) (Some VNone));
                   ("t", SLeaf (TTupFix [TInt; TStr]) None);
-                  ("inner", SNode [("xs", SLeaf (TList TFloat) (Some (VList []))); ("o", SLeaf (TOpt TInt) (Some (VInt 5)))])] in
+                  ("inner", SNode [("xs", SLeaf (TList TFloat) (Some (VList []))); ("o", SLeaf (TOpt TInt) (Some (VInt 5)))]);
+                  ("m", SOpt (SNode [("k", SLeaf TInt (Some (VInt 0)))])); ("m2", SOpt (SNode [("k", SLeaf TInt (Some (VInt 0)))]))] in
   let x := INode [("c", ILeaf (VEnum "GREEN")); ("p", ILeaf (VPath "a/b")); ("t", ILeaf (VTup [VInt 1; VStr "x"]));
-                  ("inner", INode [("xs", ILeaf (VList [VFlt false 1 "5"])); ("o", ILeaf (VInt 0))])] in
+                  ("inner", INode [("xs", ILeaf (VList [VFlt false 1 "5"])); ("o", ILeaf (VInt 0))]);
+                  ("m", INode [("k", ILeaf (VInt 0))]); ("m2", ILeaf VNone)] in
   in_quantifier s x = true /\ side_conditions s x = true /\ config_loop_gen ".yaml" s x = Ok x
   /\ in_quantifier (SNode [("l", SLeaf (TList TPath) None)]) (INode [("l", ILeaf (VList [VPath "a"]))]) = true
   /\ side_conditions (SNode [("l", SLeaf (TList TPath) None)]) (INode [("l", ILeaf (VList [VPath "a"]))]) = false
